@@ -30,9 +30,9 @@ def run(c):
     hs = emit(c, 3)
     nexh = len(hs)
     if c.quick:
-        hs += emit(c, 5, simulate=150)
+        hs += emit(c, 5, simulate=120) + emit(c, 5, certs='"A", "B", "At", "Ca"', simulate=60)
     else:
-        hs += emit(c, 4) + emit(c, 6, simulate=1500)
+        hs += emit(c, 4) + emit(c, 6, simulate=1500) + emit(c, 6, certs='"A", "B", "At", "Ca"', simulate=1000)
     # other image shapes and RSA key sizes: the same histories' prefixes on more layouts
     extra = []
     for img in (("u3t", "u0n") if c.quick else ("u3t", "u0n", "u1")):
@@ -40,6 +40,10 @@ def run(c):
                      {"op": "verify", "c": "A3"}, {"op": "sign", "c": "B"}, {"op": "verify", "c": "B"}, {"op": "verify", "c": "At"}, {"op": "verify", "c": "A4"}],
                     [{"op": "sign", "c": "A"}, {"op": "sign", "c": "At"}, {"op": "verify", "c": "At"}, {"op": "verify", "c": "A"}, {"op": "verify", "c": "B"}]):
             extra.append({"img": img, "ops": ops})
+    # a signer certificate issued by a CA (issuer differs from subject), alone and between self-signed ones
+    for img in ("u5", "u0", "s1"):
+        extra.append({"img": img, "ops": [{"op": "sign", "c": "Ca"}, {"op": "verify", "c": "Ca"}, {"op": "sign", "c": "B"}, {"op": "verify", "c": "Ca"}, {"op": "reparse", "c": "-"},
+                                           {"op": "verify", "c": "Ca"}, {"op": "verify", "c": "B"}, {"op": "verify", "c": "A"}, {"op": "sign", "c": "A"}, {"op": "verify", "c": "Ca"}]})
     # WIN_CERTIFICATE entries of every length class modulo 8 as the non-last entry (certificates whose names differ in length)
     for n in range(8):
         L = "L%d" % n
@@ -78,7 +82,7 @@ def run(c):
     c.cov["evaluations"] = len(scen)
     c.cov["traces_validated_against_impl"] = len(scen)
     c.cov["exhaustive_depth"] = 3 if c.quick else 4
-    c.cov["rule"] = ("signing histories over {Sign(A), Sign(B), Sign(A' = same issuer+serial, other key), re-parse, Verify(c)} generated by TLC from spec/PeSign.tla (all of depth 3%s, "
+    c.cov["rule"] = ("signing histories over {Sign(A), Sign(B), Sign(A' = same issuer+serial, other key), Sign(CA-issued certificate), re-parse, Verify(c)} generated by TLC from spec/PeSign.tla (all of depth 3%s, "
                      "-simulate deeper) on images with length = 0 and 5 mod 8 and an already-signed image, plus RSA-3072/4096 certificates with multi-RDN / long issuers and large serials on "
                      "three more layouts (>32 KiB section, trailing data, no sections); after every step the serialised image is projected by independent code and validated by "
                      "spec/PeSignTrace.tla. non-trivial = history with at least one Sign") % ("" if c.quick else " and 4")
